@@ -17,6 +17,7 @@ import (
 	"github.com/atlassian/gostatsd/pkg/statsd"
 
 	"verif/mon"
+	"verif/ref"
 )
 
 const histPrefix = "gsd_histogram:"
@@ -30,18 +31,58 @@ type order struct {
 	Warm   bool  `json:"warm"`
 }
 
-// tcase is one (multiset, configuration) pair. It is self-contained: replaying it needs no PRNG.
+// series is one timer series of the case: its identity (tags, source) under the shared metric name and
+// the multiset it receives.
+type series struct {
+	Tags    []string  `json:"tags"`     // without the histogram tag
+	HistTag string    `json:"hist_tag"` // complete tag, "" = ordinary timer
+	Source  string    `json:"source"`
+	Values  []float64 `json:"values"`
+	Rates   []float64 `json:"rates"`
+}
+
+// tcase is one (multisets, configuration) pair: 1..6 series under ONE metric name (different tag sets and
+// sources), as the parser produces them. It is self-contained: replaying it needs no PRNG.
 type tcase struct {
 	Variant     string    `json:"variant"` // "int" (exact comparison) or "float" (1e-9 relative)
-	Values      []float64 `json:"values"`
-	Rates       []float64 `json:"rates"`
+	Series      []series  `json:"series"`
 	Percentiles []float64 `json:"percentiles"`
 	Disabled    uint16    `json:"disabled_mask"`
 	Limit       uint32    `json:"histogram_limit"`
-	HistTag     string    `json:"hist_tag"` // complete tag, "" = ordinary timer
 	IntervalNS  int64     `json:"interval_ns"`
-	Orders      [2]order  `json:"orders"`
+	// Orders permute the datapoints of all series, flattened series by series
+	Orders [2]order `json:"orders"`
 }
+
+func (cs *tcase) total() int {
+	n := 0
+	for i := range cs.Series {
+		n += len(cs.Series[i].Values)
+	}
+	return n
+}
+
+// locate maps a flattened datapoint index to (series, index in series).
+func (cs *tcase) locate(flat int) (int, int) {
+	for si := range cs.Series {
+		if flat < len(cs.Series[si].Values) {
+			return si, flat
+		}
+		flat -= len(cs.Series[si].Values)
+	}
+	panic("harness: flattened index out of range")
+}
+
+func (s *series) allTags() gostatsd.Tags {
+	t := append(gostatsd.Tags(nil), s.Tags...)
+	if s.HistTag != "" {
+		t = append(t, s.HistTag)
+	}
+	return t
+}
+
+// key is the documented series key (sorted tags joined by ',' plus ",s:<source>"), re-stated in ref.TagsKey.
+func (s *series) key() string { return ref.TagsKey(s.allTags(), s.Source) }
 
 func subtypes(mask uint16) gostatsd.TimerSubtypes {
 	b := func(i uint) bool { return mask&(1<<i) != 0 }
@@ -79,20 +120,20 @@ type refTimer struct {
 
 func refRound(x float64) float64 { return math.Floor(x + 0.5) }
 
-func reference(cs *tcase) *refTimer {
-	rt := &refTimer{n: len(cs.Values)}
-	sorted := append([]float64(nil), cs.Values...)
+func reference(cs *tcase, se *series) *refTimer {
+	rt := &refTimer{n: len(se.Values)}
+	sorted := append([]float64(nil), se.Values...)
 	sort.Float64s(sorted)
 	n := len(sorted)
 
-	if cs.HistTag != "" {
+	if se.HistTag != "" {
 		rt.histogram = true
 		rt.buckets = map[float64]int{}
 		if cs.Limit == 0 {
 			return rt
 		}
 		var bounds []float64
-		for _, item := range strings.Split(strings.TrimPrefix(cs.HistTag, histPrefix), "_") {
+		for _, item := range strings.Split(strings.TrimPrefix(se.HistTag, histPrefix), "_") {
 			if f, err := strconv.ParseFloat(item, 64); err == nil {
 				bounds = append(bounds, f)
 			}
@@ -118,7 +159,7 @@ func reference(cs *tcase) *refTimer {
 		return rt
 	}
 
-	for _, r := range cs.Rates {
+	for _, r := range se.Rates {
 		rt.sampled += 1 / r
 	}
 	rt.pct = map[string]float64{}
@@ -201,34 +242,38 @@ func reference(cs *tcase) *refTimer {
 // driving the real aggregator
 
 type observed struct {
-	found  int
-	timer  gostatsd.Timer
-	others int
+	found int
+	timer gostatsd.Timer
 }
 
 const seriesName = "t"
 
-func (cs *tcase) tags() gostatsd.Tags {
-	t := gostatsd.Tags{"env:x"}
-	if cs.HistTag != "" {
-		t = append(t, cs.HistTag)
-	}
-	return t
+func (cs *tcase) metric(flat int, ts int64) *gostatsd.Metric {
+	si, i := cs.locate(flat)
+	se := &cs.Series[si]
+	return &gostatsd.Metric{Name: seriesName, Type: gostatsd.TIMER, Value: se.Values[i], Rate: se.Rates[i], Tags: se.allTags(), Source: gostatsd.Source(se.Source), Timestamp: gostatsd.Nanotime(ts)}
 }
 
-func (cs *tcase) metric(i int, ts int64) *gostatsd.Metric {
-	return &gostatsd.Metric{Name: seriesName, Type: gostatsd.TIMER, Value: cs.Values[i], Rate: cs.Rates[i], Tags: cs.tags(), Timestamp: gostatsd.Nanotime(ts)}
-}
-
-func (cs *tcase) run(o order) observed {
+// run merges the datapoints in the given order, through maps built by the real MetricMap.Receive (as the
+// parser builds them), flushes, and returns what the flushed map shows per series key.
+func (cs *tcase) run(o order) (map[string]observed, int) {
 	agg := statsd.NewMetricAggregator(append([]float64(nil), cs.Percentiles...), 0, 0, 0, 0, subtypes(cs.Disabled), cs.Limit)
 	interval := time.Duration(cs.IntervalNS)
-	if o.Warm || len(cs.Values) == 0 {
-		// the series goes through one complete flush cycle first; expiry 0 keeps it
-		mm := gostatsd.NewMetricMap(false)
-		for _, v := range []float64{7, 9, 1000003} {
-			mm.Receive(&gostatsd.Metric{Name: seriesName, Type: gostatsd.TIMER, Value: v, Rate: 0.5, Tags: cs.tags(), Timestamp: 1})
+	// a series goes through one complete flush cycle first when the order is "warm", and always when it
+	// receives nothing afterwards (idle persisted series); expiry 0 keeps it
+	mm := gostatsd.NewMetricMap(false)
+	warmed := 0
+	for si := range cs.Series {
+		se := &cs.Series[si]
+		if !o.Warm && len(se.Values) > 0 {
+			continue
 		}
+		for _, v := range []float64{7, 9, 1000003} {
+			mm.Receive(&gostatsd.Metric{Name: seriesName, Type: gostatsd.TIMER, Value: v, Rate: 0.5, Tags: se.allTags(), Source: gostatsd.Source(se.Source), Timestamp: 1})
+			warmed++
+		}
+	}
+	if warmed > 0 {
 		agg.ReceiveMap(mm)
 		agg.Flush(interval)
 		agg.Process(func(*gostatsd.MetricMap) {})
@@ -237,24 +282,33 @@ func (cs *tcase) run(o order) observed {
 	pos := 0
 	for ci, c := range o.Chunks {
 		mm := gostatsd.NewMetricMap(false)
-		for _, i := range o.Perm[pos : pos+c] {
-			mm.Receive(cs.metric(i, int64(100+i)))
+		if ci%3 == 2 { // an unrelated name first in the batch
+			mm.Receive(&gostatsd.Metric{Name: "decoy", Type: gostatsd.TIMER, Value: -123456, Rate: 0.25, Tags: gostatsd.Tags{"env:x"}, Timestamp: 5})
+		}
+		for _, flat := range o.Perm[pos : pos+c] {
+			mm.Receive(cs.metric(flat, int64(100+flat)))
 		}
 		pos += c
-		if ci%2 == 1 { // an unrelated series in the same batch must not leak into ours
-			mm.Receive(&gostatsd.Metric{Name: "decoy", Type: gostatsd.TIMER, Value: -123456, Rate: 0.25, Tags: cs.tags(), Timestamp: 5})
-			mm.Receive(&gostatsd.Metric{Name: seriesName, Type: gostatsd.TIMER, Value: 654321, Rate: 0.25, Tags: gostatsd.Tags{"env:y"}, Timestamp: 5})
+		if ci%2 == 1 { // unrelated series in the same batch must not leak into ours
+			mm.Receive(&gostatsd.Metric{Name: "decoy", Type: gostatsd.TIMER, Value: -123456, Rate: 0.25, Tags: gostatsd.Tags{"env:x"}, Timestamp: 5})
+			mm.Receive(&gostatsd.Metric{Name: seriesName, Type: gostatsd.TIMER, Value: 654321, Rate: 0.25, Tags: gostatsd.Tags{"decoy:1"}, Timestamp: 5})
 		}
 		agg.ReceiveMap(mm)
 	}
 	agg.Flush(interval)
-	var ob observed
+	out := map[string]observed{}
+	others := 0
+	want := map[string]bool{}
+	for si := range cs.Series {
+		want[cs.Series[si].key()] = true
+	}
 	agg.Process(func(mm *gostatsd.MetricMap) {
 		mm.Timers.Each(func(name, tagsKey string, t gostatsd.Timer) {
-			if name != seriesName || !strings.Contains(tagsKey, "env:x") {
-				ob.others++
+			if name != seriesName || !want[tagsKey] {
+				others++
 				return
 			}
+			ob := out[tagsKey]
 			ob.found++
 			t.Values = append([]float64(nil), t.Values...)
 			t.Percentiles = append(gostatsd.Percentiles(nil), t.Percentiles...)
@@ -277,9 +331,10 @@ func (cs *tcase) run(o order) observed {
 				t.Histogram = h
 			}
 			ob.timer = t
+			out[tagsKey] = ob
 		})
 	})
-	return ob
+	return out, others
 }
 
 // ---------------------------------------------------------------------------------------------
@@ -300,7 +355,7 @@ func (c *checker) same(exact bool, got, want, scale float64) bool {
 }
 
 // compare returns the list of (signature, detail) differences between what was flushed and the reference.
-func (c *checker) compare(cs *tcase, rt *refTimer, ob observed) [][2]string {
+func (c *checker) compare(cs *tcase, se *series, rt *refTimer, ob observed) [][2]string {
 	var out [][2]string
 	add := func(sig, format string, a ...interface{}) { out = append(out, [2]string{sig, fmt.Sprintf(format, a...)}) }
 	if ob.found != 1 {
@@ -352,7 +407,7 @@ func (c *checker) compare(cs *tcase, rt *refTimer, ob observed) [][2]string {
 		}
 		for b := range got {
 			if _, ok := rt.buckets[b]; !ok {
-				add("histogram:bucket-unexpected", "bucket le=%v reported but not among the first %d parsable bounds of %q; got %v want %v", b, cs.Limit, cs.HistTag, got, rt.buckets)
+				add("histogram:bucket-unexpected", "bucket le=%v reported but not among the first %d parsable bounds of %q; got %v want %v", b, cs.Limit, se.HistTag, got, rt.buckets)
 			}
 		}
 		return out
@@ -446,42 +501,56 @@ func limitClass(l uint32) string {
 	return strconv.Itoa(int(l))
 }
 
-// eval runs one case in both arrival orders and reports every difference.
+// eval runs one case in both arrival orders and reports every difference, series by series.
 func (c *checker) eval(cs *tcase) {
-	rt := reference(cs)
+	refs := make([]*refTimer, len(cs.Series))
+	for si := range cs.Series {
+		refs[si] = reference(cs, &cs.Series[si])
+	}
 	for oi, o := range cs.Orders {
-		var ob observed
-		if c.r.Guard("flush-panic", cs, func() { ob = cs.run(o) }) {
+		var obs map[string]observed
+		if c.r.Guard("flush-panic", cs, func() { obs, _ = cs.run(o) }) {
 			continue
 		}
-		for _, d := range c.compare(cs, rt, ob) {
-			c.r.Violation(d[0], fmt.Sprintf("order %d (warm=%v, %d batches), n=%d variant=%s percentiles=%v limit=%d tag=%q interval=%v: %s", oi, o.Warm, len(o.Chunks), rt.n, cs.Variant, cs.Percentiles, cs.Limit, cs.HistTag, time.Duration(cs.IntervalNS), d[1]), cs)
+		for si := range cs.Series {
+			se := &cs.Series[si]
+			rt := refs[si]
+			for _, d := range c.compare(cs, se, rt, obs[se.key()]) {
+				c.r.Violation(d[0], fmt.Sprintf("order %d (warm=%v, %d batches), series %d of %d under one name (key %q), n=%d variant=%s percentiles=%v limit=%d tag=%q interval=%v: %s",
+					oi, o.Warm, len(o.Chunks), si, len(cs.Series), se.key(), rt.n, cs.Variant, cs.Percentiles, cs.Limit, se.HistTag, time.Duration(cs.IntervalNS), d[1]), cs)
+			}
+			c.r.Event("series_flushes_compared", 1)
 		}
-		c.r.Event("flushes_compared", 1)
 	}
 	c.r.Eval(1)
+	if len(cs.Series) > 1 {
+		c.r.Event("cases_with_several_series_under_one_name", 1)
+	}
 
 	// non-trivial classes
-	if rt.histogram {
-		c.r.Event("histogram_cases", 1)
-		if rt.nBounds >= 2 {
-			c.r.Nontrivial(fmt.Sprintf("h:%s:%s:%d", nClass(rt.n), limitClass(cs.Limit), minInt(rt.nBounds, 6)))
-		}
-	} else {
-		c.r.Event("summary_cases", 1)
-		pos, neg := false, false
-		for _, p := range cs.Percentiles {
-			pos = pos || p > 0
-			neg = neg || p < 0
-		}
-		if rt.n >= 2 && pos && neg {
-			ps := append([]float64(nil), cs.Percentiles...)
-			sort.Float64s(ps)
-			c.r.Nontrivial(fmt.Sprintf("s:%s:%s:%v", cs.Variant, nClass(rt.n), ps))
-		}
+	pos, neg := false, false
+	for _, p := range cs.Percentiles {
+		pos = pos || p > 0
+		neg = neg || p < 0
 	}
-	if rt.n == 0 {
-		c.r.Event("idle_cases", 1)
+	kc := minInt(len(cs.Series), 3)
+	for _, rt := range refs {
+		if rt.histogram {
+			c.r.Event("histogram_series", 1)
+			if rt.nBounds >= 2 {
+				c.r.Nontrivial(fmt.Sprintf("h:k%d:%s:%s:%d", kc, nClass(rt.n), limitClass(cs.Limit), minInt(rt.nBounds, 6)))
+			}
+		} else {
+			c.r.Event("summary_series", 1)
+			if rt.n >= 2 && pos && neg {
+				ps := append([]float64(nil), cs.Percentiles...)
+				sort.Float64s(ps)
+				c.r.Nontrivial(fmt.Sprintf("s:k%d:%s:%s:%v", kc, cs.Variant, nClass(rt.n), ps))
+			}
+		}
+		if rt.n == 0 {
+			c.r.Event("idle_series", 1)
+		}
 	}
 }
 
@@ -534,47 +603,103 @@ func genOrder(rng *rand.Rand, n int, base []int) order {
 	return o
 }
 
+// identities under one metric name: pairwise different (tags, source)
+var identities = []struct {
+	tags   []string
+	source string
+}{
+	{[]string{"env:x"}, ""},
+	{[]string{"env:y"}, ""},
+	{nil, ""},
+	{nil, "10.0.0.1"},
+	{[]string{"env:x"}, "10.0.0.1"},
+	{[]string{"env:x", "region:us"}, ""},
+	{[]string{"region:us", "env:x"}, "i-abc"},
+	{[]string{"bare"}, "10.0.0.2"},
+}
+
+func genSeries(rng *rand.Rand, variant string, n, span int) series {
+	se := series{Values: make([]float64, n), Rates: make([]float64, n)}
+	for i := range se.Values {
+		if variant == "int" {
+			se.Values[i] = float64(rng.Intn(2*span+1) - span)
+			if rng.Intn(2) == 0 {
+				se.Values[i] = float64(rng.Intn(span + 1))
+			}
+			// dyadic rates, below and above 1: the sum of 1/rate is exact in any order
+			se.Rates[i] = []float64{1, 0.5, 0.25, 0.125, 1, 0.5, 2, 4}[rng.Intn(8)]
+		} else {
+			switch rng.Intn(4) {
+			case 0:
+				se.Values[i] = float64(rng.Intn(2000001)-1000000) / 1000
+			case 1:
+				se.Values[i] = rng.NormFloat64() * 1e3
+			case 2:
+				se.Values[i] = math.Exp(rng.Float64()*20-7) * float64(1-2*rng.Intn(2))
+			default:
+				se.Values[i] = rng.Float64() * float64(span)
+			}
+			switch rng.Intn(4) {
+			case 0:
+				se.Rates[i] = 1
+			case 1:
+				se.Rates[i] = float64(1+rng.Intn(100)) / 100
+			case 2:
+				se.Rates[i] = 1 + float64(rng.Intn(300))/100
+			default:
+				se.Rates[i] = 1 - rng.Float64()*0.999
+			}
+		}
+	}
+	if variant == "float" && n > 1 && rng.Intn(5) == 0 { // all values equal: std-dev 0 up to rounding
+		for i := range se.Values {
+			se.Values[i] = se.Values[0]
+		}
+	}
+	if rng.Intn(3) == 0 { // histogram timer
+		nb := rng.Intn(7)
+		items := make([]string, 0, nb)
+		for i := 0; i < nb; i++ {
+			switch x := rng.Intn(10); {
+			case x < 4 && n > 0: // a bound equal to one of the values (<= versus <)
+				items = append(items, strconv.FormatFloat(se.Values[rng.Intn(n)], 'g', -1, 64))
+			case x < 6:
+				items = append(items, strconv.Itoa(rng.Intn(2*span+1)-span))
+			case x < 7:
+				items = append(items, strconv.FormatFloat(rng.Float64()*float64(span), 'f', 2, 64))
+			case x < 8 && len(items) > 0: // duplicate
+				items = append(items, items[rng.Intn(len(items))])
+			default:
+				items = append(items, oddBounds[rng.Intn(len(oddBounds))])
+			}
+		}
+		se.HistTag = histPrefix + strings.Join(items, "_")
+	}
+	return se
+}
+
 func genCase(rng *rand.Rand) *tcase {
 	cs := &tcase{Variant: "int"}
 	if rng.Intn(3) == 0 {
 		cs.Variant = "float"
 	}
-	n := genN(rng)
 	span := []int{3, 10, 100, 1000}[rng.Intn(4)] // small spans give many ties
-	cs.Values = make([]float64, n)
-	cs.Rates = make([]float64, n)
-	for i := range cs.Values {
-		if cs.Variant == "int" {
-			cs.Values[i] = float64(rng.Intn(2*span+1) - span)
-			if rng.Intn(2) == 0 {
-				cs.Values[i] = float64(rng.Intn(span + 1))
-			}
-			cs.Rates[i] = 1 / float64(int(1)<<uint(rng.Intn(4)))
-		} else {
-			switch rng.Intn(4) {
-			case 0:
-				cs.Values[i] = float64(rng.Intn(2000001)-1000000) / 1000
-			case 1:
-				cs.Values[i] = rng.NormFloat64() * 1e3
-			case 2:
-				cs.Values[i] = math.Exp(rng.Float64()*20-7) * float64(1-2*rng.Intn(2))
-			default:
-				cs.Values[i] = rng.Float64() * float64(span)
-			}
-			switch rng.Intn(3) {
-			case 0:
-				cs.Rates[i] = 1
-			case 1:
-				cs.Rates[i] = float64(1+rng.Intn(100)) / 100
-			default:
-				cs.Rates[i] = 1 - rng.Float64()*0.999
-			}
-		}
+	k := 1
+	if rng.Intn(4) != 0 {
+		k = 2 + rng.Intn(5)
 	}
-	if cs.Variant == "float" && n > 1 && rng.Intn(5) == 0 { // all values equal: std-dev 0 up to rounding
-		for i := range cs.Values {
-			cs.Values[i] = cs.Values[0]
+	ids := rng.Perm(len(identities))[:k]
+	for j, id := range ids {
+		n := genN(rng)
+		if j > 0 { // keep the case small: the further series are short
+			n = []int{0, 1, 1, 2, 2, 3, 5, 8, 20}[rng.Intn(9)]
+		} else if k > 1 && n > 60 {
+			n = 1 + rng.Intn(60)
 		}
+		se := genSeries(rng, cs.Variant, n, span)
+		se.Tags = identities[id].tags
+		se.Source = identities[id].source
+		cs.Series = append(cs.Series, se)
 	}
 	np := rng.Intn(7)
 	for i := 0; i < np; i++ {
@@ -595,25 +720,7 @@ func genCase(rng *rand.Rand) *tcase {
 	if rng.Intn(4) == 0 {
 		cs.IntervalNS = 1 + rng.Int63n(int64(2*time.Minute))
 	}
-	if rng.Intn(3) == 0 { // histogram timer
-		nb := rng.Intn(7)
-		items := make([]string, 0, nb)
-		for i := 0; i < nb; i++ {
-			switch x := rng.Intn(10); {
-			case x < 4 && n > 0: // a bound equal to one of the values (<= versus <)
-				items = append(items, strconv.FormatFloat(cs.Values[rng.Intn(n)], 'g', -1, 64))
-			case x < 6:
-				items = append(items, strconv.Itoa(rng.Intn(2*span+1)-span))
-			case x < 7:
-				items = append(items, strconv.FormatFloat(rng.Float64()*float64(span), 'f', 2, 64))
-			case x < 8 && len(items) > 0: // duplicate
-				items = append(items, items[rng.Intn(len(items))])
-			default:
-				items = append(items, oddBounds[rng.Intn(len(oddBounds))])
-			}
-		}
-		cs.HistTag = histPrefix + strings.Join(items, "_")
-	}
+	n := cs.total()
 	a := rng.Perm(n)
 	b := make([]int, n)
 	switch rng.Intn(3) {
@@ -623,7 +730,8 @@ func genCase(rng *rand.Rand) *tcase {
 		}
 	case 1: // descending by value
 		copy(b, a)
-		sort.SliceStable(b, func(i, j int) bool { return cs.Values[b[i]] > cs.Values[b[j]] })
+		val := func(flat int) float64 { si, i := cs.locate(flat); return cs.Series[si].Values[i] }
+		sort.SliceStable(b, func(i, j int) bool { return val(b[i]) > val(b[j]) })
 	default:
 		b = rng.Perm(n)
 	}
@@ -663,7 +771,7 @@ func corpus() []*tcase {
 		for i := range rates {
 			rates[i] = 1
 		}
-		out = append(out, &tcase{Variant: "int", Values: vals, Rates: rates, Percentiles: pcts, HistTag: tag, Limit: limit, IntervalNS: int64(time.Second),
+		out = append(out, &tcase{Variant: "int", Series: []series{{Tags: []string{"env:x"}, HistTag: tag, Values: vals, Rates: rates}}, Percentiles: pcts, Limit: limit, IntervalNS: int64(time.Second),
 			Orders: [2]order{one(len(vals)), rev(len(vals))}})
 	}
 	all := []float64{100, -100, 90, -90, 50, -50, 1, -1, 0}
@@ -679,13 +787,41 @@ func corpus() []*tcase {
 			mk(vals, all, histPrefix+"-3_0_4_nan_a__4_inf_9", l)
 		}
 	}
+	// several series under one name, every one starting with a sampled datapoint, in one batch and one by one
+	for _, rate := range []float64{0.5, 0.125, 2} {
+		for k := 2; k <= 4; k++ {
+			cs := &tcase{Variant: "int", Percentiles: []float64{90, -50}, Limit: math.MaxUint32, IntervalNS: int64(10 * time.Second)}
+			for j := 0; j < k; j++ {
+				se := series{Tags: identities[j].tags, Source: identities[j].source}
+				for i := 0; i <= j; i++ {
+					se.Values = append(se.Values, float64(3*j+i))
+					se.Rates = append(se.Rates, rate)
+				}
+				cs.Series = append(cs.Series, se)
+			}
+			cs.Orders = [2]order{one(cs.total()), rev(cs.total())}
+			cs.Orders[1].Warm = false
+			out = append(out, cs)
+		}
+	}
 	return out
+}
+
+func describe(cs *tcase) string {
+	ns := make([]string, len(cs.Series))
+	for i := range cs.Series {
+		ns[i] = strconv.Itoa(len(cs.Series[i].Values))
+		if cs.Series[i].HistTag != "" {
+			ns[i] += "h"
+		}
+	}
+	return fmt.Sprintf("series n=[%s] pct=%v limit=%d", strings.Join(ns, ","), cs.Percentiles, cs.Limit)
 }
 
 func TestCheck(t *testing.T) {
 	r := mon.Start(t, "C08")
 	defer r.Finish()
-	r.Rule("cases: (multiset, configuration) pairs — n from {0 (idle persisted series after a Reset),1,2,3,4..200}, integer-valued values with dyadic rates (exact comparison) or arbitrary finite floats and rates (1e-9 relative tolerance, scaled by the magnitude of the inputs for sums), 0..6 integer percentiles in [-100,100] (pool with ±100 ±90 ±50 ±1 0), random sub-metric masks, flush intervals from 1ns to 1h, a third of the timers tagged gsd_histogram with bounds equal to values, duplicates and malformed items, limits {0,1,2,3,5,MaxUint32}; every multiset is merged into a real MetricAggregator in two different arrival orders, split over several ReceiveMap calls, on a fresh or a warmed (one earlier flush/Reset) aggregator, then Flush + Process; every field is compared with an independent reference (sort, rank = floor(|p|/100*n+0.5), k lowest/highest, population std-dev, #values <= bound). Non-trivial: n >= 2 with at least one percentile of each sign, or a histogram with >= 2 kept bounds; distinct by (variant, n class, percentile list) resp. (n class, limit, number of kept bounds).")
+	r.Rule("cases: (multisets, configuration) pairs — 1..6 timer series under ONE metric name (different tag sets and sources; 75% of the cases have 2..6), each with its own multiset of n from {0 (idle persisted series after a Reset),1,2,3,4..200} values: integer-valued values with dyadic rates from {1/8..4} (exact comparison) or arbitrary finite floats with rates in (0,4) (1e-9 relative tolerance, scaled by the magnitude of the inputs for sums); 0..6 integer percentiles in [-100,100] (pool with ±100 ±90 ±50 ±1 0), random sub-metric masks, flush intervals from 1ns to 1h, a third of the series tagged gsd_histogram with bounds equal to values, duplicates and malformed items, limits {0,1,2,3,5,MaxUint32}; the datapoints of all series are interleaved in two different arrival orders, split over several batches, each batch turned into a map by the real MetricMap.Receive (as the parser does, so a series is first / not first of its name in a map, with a sampled first datapoint) and merged by ReceiveMap into a fresh or a warmed (one earlier flush/Reset) MetricAggregator, then Flush + Process; every field of every series is compared with an independent reference (count = round(sum 1/rate), sort, rank = floor(|p|/100*n+0.5), k lowest/highest, population std-dev, #values <= bound). Non-trivial: a series with n >= 2 and at least one percentile of each sign, or a histogram with >= 2 kept bounds; distinct by (series-per-name class, variant, n class, percentile list) resp. (series-per-name class, n class, limit, number of kept bounds).")
 	r.Assume("strconv.ParseFloat defines which histogram bounds are parsable; gostatsd.MetricMap.Receive/Merge deliver the datapoints (C07)")
 	c := &checker{r: r}
 
@@ -704,15 +840,15 @@ func TestCheck(t *testing.T) {
 	n := r.N(20000, 20000000)
 	for i := 0; i < n; i++ {
 		cs := genCase(rng)
-		r.Case("case %d n=%d pct=%v limit=%d tag=%q", i, len(cs.Values), cs.Percentiles, cs.Limit, cs.HistTag)
+		r.Case("case %d %s", i, describe(cs))
 		c.eval(cs)
-		if r.WantSample() && len(cs.Values) >= 2 && len(cs.Values) <= 6 && len(cs.Percentiles) >= 2 && i%7 == 0 {
+		if r.WantSample() && len(cs.Series) >= 2 && cs.total() >= 3 && cs.total() <= 8 && len(cs.Percentiles) >= 2 && i%7 == 0 {
 			r.Sample(cs)
 		}
 	}
 	if s, _ := r.Shard(); s == 0 {
 		for _, cs := range corpus() {
-			r.Case("corpus n=%d pct=%v limit=%d tag=%q", len(cs.Values), cs.Percentiles, cs.Limit, cs.HistTag)
+			r.Case("corpus %s", describe(cs))
 			c.eval(cs)
 		}
 		r.Event("boundary_corpus", len(corpus()))
